@@ -12,6 +12,36 @@ CHECKS = {
         note="Trusts the observation identity white-on-transparent alpha == coverage byte (all four channels are checked to agree), the i128 model in harness/src/checks/c01.rs, and leaves pixels with an edge crossing inside the fixed-point ambiguity band unasserted (counted in the evidence).",
         ref="DESIGN.md section 3, C01",
     ),
+    "C02": dict(
+        technique="online frame monitor on an instrumented DrawTarget: every pixel outside shape coverage, clip or dilated hull compared bit for bit before/after each call on canary destinations",
+        text="Generated and directed scenes (all 28 modes, 6 source kinds, alpha, both AA modes, clip/layer stacks, transforms, every drawing entry point) run on the real DrawTarget; after every call each pixel of the surface and of every open layer that the shadow model places outside the shape, the clip or the surface must be bit-identical. Held on the scenes run.",
+        note="Shape coverage comes from a probe render of the same shape (rasteriser factored out to C01/C04/C08); a rasteriser-independent dilated control hull frame and analytically known coverage (mask bytes, integer rects, layer rects) are asserted too. Layer buffers are read through the verif_layer hook.",
+        ref="DESIGN.md section 3, C02",
+    ),
+    "C03": dict(
+        technique="online formula monitor: per-pixel expected value from (source, destination, coverage, clip, mode) with exact end-point rules, 3 LSB tolerance between, locality and source-scaling rules",
+        text="Every pixel touched by every call of generated scenes plus a pixel lab (mask() with all 256 coverage bytes; all 256 opacity bytes x 28 modes x 3 clip variants through layers, enumerated completely) is compared with the statement's compositing rule. Held on what was run.",
+        note="sw_composite::blend::* is the formula of record; source colour and coverage are probed through the same library (their correctness belongs to C12/C13 and C01/C04/C08); tolerance 3 LSB where the statement leaves rounding open (largest deviation seen is reported).",
+        ref="DESIGN.md section 3, C03",
+    ),
+    "C05": dict(
+        technique="shadow clip-stack model + effective-clip probe after every push/pop, pop-restore and push-order differentials, unclipped-twin differential for rectangular clips",
+        text="Random well-nested clip histories (rects and paths in every order, inverted/disjoint/oversized/off-surface rects, AA clip paths, interleaved transforms, layers and draws) with the observed effective clip checked against the model of the whole stack after every change; rect-clipped draws equal unclipped draws exactly inside the clip. Held on what was run.",
+        note="Per-path coverage maps are probe renders of the pre-transformed path; the product band is ceil((paths-1)/2)+1 LSB. The effective clip is observed by a white fill on zeroed pixels (pixels and transform restored).",
+        ref="DESIGN.md section 3, C05",
+    ),
+    "C06": dict(
+        technique="step-wise layer-buffer monitor through the verif_layer hook plus an end-to-end isolated-group reference built with the public API only",
+        text="Layer-heavy scenes (nesting to depth 3, opacity 0..1 and out of range/NaN, all 28 modes, layers under rect/path/empty/inverted/oversized clips, clear and every other call inside): every call must change only the innermost layer buffer per the compositing oracles, pop_layer must composite the buffer once; independently the group is rendered on a separate transparent surface and composited once and compared with the layered result. Held on what was run.",
+        note="Same trusted base as C03 for the per-pixel rule. The end-to-end reference assumes clips pushed before the layer stay until after the pop (well-nested scenes).",
+        ref="DESIGN.md section 3, C06",
+    ),
+    "C18": dict(
+        technique="online premultiplied-validity monitor on every buffer after every call, exhaustive colour-conversion enumeration",
+        text="Every pixel of every buffer after every call of the scene and pixel-lab workloads (valid destinations and sources only) must satisfy r,g,b <= a; Color/from_unpremultiplied_argb are enumerated over all 65536 (alpha, channel) pairs. Held on what was run; one known finding in the dependency (BlendMode::Color) is reported as KNOWN-FINDING.",
+        note="Runs in the val/rel builds where sw-composite returns the offending value instead of asserting; the known-finding signature requires mode Color and an invalid formula-of-record output for that exact (source, destination) pair.",
+        ref="DESIGN.md section 3, C18",
+    ),
 }
 
 NOT_BUILT_REASON = "check not built yet in this round (planned, see DESIGN.md section 3); not claimed"
